@@ -832,6 +832,8 @@ def m6(facts, tier):
                 op = {"Gt": "Lt", "Ge": "Le", "Lt": "Gt", "Le": "Ge"}[c["op"]]
             else:
                 op = c["op"]
+            if r.get("k") == "Const" and isinstance(r.get("val"), int):
+                r = {"k": "Lit", "int": r["val"]}
             if not (l.get("k") == "Call" and (callee(l) or "").endswith("::len") and r.get("k") == "Lit" and "int" in r):
                 continue
             what = ".".join(str(p).split("#")[0] for p in (path_of_args(l) or ()))
